@@ -305,7 +305,12 @@ func suiteCluster(c *Ctx) {
 						}
 					}
 				}
-				events = append(events, "m"+bulk(textOf(base, r)), "t")
+				events = append(events, "m"+bulk(textOf(base, r)))
+				if r.Chance(70) { // otherwise the next description arrives before the ticker has applied this one
+					events = append(events, "t")
+				} else {
+					kinds["untick"] = true
+				}
 			case 0:
 				events = append(events, "m"+unusable[r.Intn(len(unusable))])
 				kinds["unusable"] = true
@@ -324,12 +329,22 @@ func suiteCluster(c *Ctx) {
 						break
 					}
 				}
-				events = append(events, "m"+bulk(textOf(base, r)), "t")
+				events = append(events, "m"+bulk(textOf(base, r)))
+				if r.Chance(70) { // otherwise the next description arrives before the ticker has applied this one
+					events = append(events, "t")
+				} else {
+					kinds["untick"] = true
+				}
 			case 3: // a different topology
 				nb, ni := genTopology(r, i+j+1)
 				base = nb
 				infos = append(infos, ni...)
-				events = append(events, "m"+bulk(textOf(base, r)), "t")
+				events = append(events, "m"+bulk(textOf(base, r)))
+				if r.Chance(70) { // otherwise the next description arrives before the ticker has applied this one
+					events = append(events, "t")
+				} else {
+					kinds["untick"] = true
+				}
 				kinds["change"] = true
 			default:
 				events = append(events, "m"+bulk(textOf(base, r)))
@@ -338,6 +353,7 @@ func suiteCluster(c *Ctx) {
 				}
 			}
 		}
+		events = append(events, "t") // the last description is applied
 		// configured seed addresses: one foreign address, and sometimes nodes of the first topology
 		// with a role that may be wrong (a seed that is really a replica starts as a master pool)
 		pools := [][2]string{{"10.9.9.9:7000", "0"}}
